@@ -79,6 +79,22 @@ for sd in sorted(glob.glob(ROOT + '/C*-*')):
     json.dump(meta, open(sd + '/meta.json', 'w'), indent=1)
     rows.append((sid, 'caught' if arrival['checks'].get(pid, 0) > 0 else ('other:' + ','.join(arr_by) if arr_by else 'missed'),
                  ','.join(caught_by) or 'MISSED'))
+import sys
+if '--markdown' in sys.argv:
+    rnd = [a for a in sys.argv if a.startswith('r')]
+    for sid, first, now in rows:
+        if rnd and ('-%s-' % rnd[0]) not in sid:
+            continue
+        rd = ROOT + '/' + sid + '/README.seeder.md'
+        head = ''
+        if os.path.exists(rd):
+            for line in open(rd):
+                line = line.strip().lstrip('#').strip()
+                if line:
+                    head = re.sub(r'^(Seed|Change|C\d+)[^:]*:\s*', '', line)[:150]
+                    break
+        print('| %s | %s | %s | %s |' % (sid, head.replace('|', '/'), first.replace('other:', 'other: '), now.replace(',', ', ')))
+    sys.exit(0)
 for r in rows:
     print('%-10s first=%-14s now=%s' % r)
 print(len(rows), 'seeds;', sum(1 for r in rows if r[1] == 'caught'), 'caught by their own check on arrival;',
